@@ -50,3 +50,69 @@ let () =
       let base = rd_str () in
       let raw = rd_str () in
       pr_str (px_file_name base raw))
+
+(* ---- c20.table: read_pepxml with its options; the floating-point oracles arrive as recorded tables ---- *)
+let c20_bits_of_pos (p : positive) : string =
+  let b = Buffer.create 64 in
+  let rec go p = match p with
+    | XH -> Buffer.add_char b '1'
+    | XO p' -> Buffer.add_char b '0'; go p'
+    | XI p' -> Buffer.add_char b '1'; go p' in
+  go p; Buffer.contents b          (* least significant bit first: a key, not a numeral *)
+let c20_key_z (x : z) : string = match x with
+  | Z0 -> "0" | Zpos p -> "+" ^ c20_bits_of_pos p | Zneg p -> "-" ^ c20_bits_of_pos p
+let c20_key_q (x : q) : string =
+  let r = qred x in c20_key_z r.qnum ^ "/" ^ c20_bits_of_pos r.qden
+let c20_key_str (s : z list) : string = String.concat "," (List.map c20_key_z s)
+let c20_tbl (what : string) (key : 'k -> string) (entries : ('k * 'v) list) : 'k -> 'v =
+  let h = Hashtbl.create (2 * List.length entries + 1) in
+  List.iter (fun (k, v) -> Hashtbl.replace h (key k) v) entries;
+  fun k -> match Hashtbl.find_opt h (key k) with
+    | Some v -> v
+    | None -> raise (Bad ("c20: the recorded " ^ what ^ " oracle has no value for an argument the model asks for"))
+let px_pr_cell = function
+  | CText s -> pr_int 0; pr_str s
+  | CBool b -> pr_int 1; pr_bool b
+  | CInt z -> pr_int 2; pr_z z
+  | CAttr z -> pr_int 3; pr_z z
+  | CNum q -> pr_int 4; pr_q q
+  | CNaN -> pr_int 5
+  | CNegInf -> pr_int 6
+let px_pr_col (c : px_col) =
+  pr_str c.c_name;
+  pr_int (match c.c_kind with KText -> 0 | KBool -> 1 | KInt -> 2 | KFloat -> 3);
+  pr_int (match c.c_role with RMeta -> 0 | RFeature -> 1);
+  pr_bool c.c_logged;
+  pr_list px_pr_cell c.c_cells
+let px_pr_roles (r : px_roles) =
+  pr_str r.ro_target; pr_list pr_str r.ro_spectrum; pr_str r.ro_peptide; pr_str r.ro_protein;
+  pr_list pr_str r.ro_features; pr_str r.ro_filename; pr_str r.ro_scan; pr_str r.ro_calcmass;
+  pr_str r.ro_expmass; pr_str r.ro_rt; pr_str r.ro_charge
+let () =
+  reg "c20.table" (fun () ->
+      let prefix = rd_str () in
+      let files = rd_list px_rd_file () in
+      let excl = rd_list rd_str () in
+      let bin = rd_opt rd_q () in
+      let to_df = rd_bool () in
+      let num = c20_tbl "float(text)" c20_key_str (rd_list (rd_pair rd_str (rd_opt rd_q)) ()) in
+      let lg = c20_tbl "log10" c20_key_q (rd_list (rd_pair rd_q rd_q) ()) in
+      let md2 = c20_tbl "mass_diff" (fun (a, b) -> c20_key_z a ^ ";" ^ c20_key_z b)
+          (rd_list (rd_pair (rd_pair rd_z rd_z) rd_q) ()) in
+      let mz3 = c20_tbl "abs_mz_diff" (fun (a, (b, c)) -> c20_key_z a ^ ";" ^ c20_key_z b ^ ";" ^ c20_key_z c)
+          (rd_list (rd_pair (rd_pair rd_z (rd_pair rd_z rd_z)) rd_q) ()) in
+      let rp = c20_tbl "repr" c20_key_q (rd_list (rd_pair rd_q (rd_pair rd_q rd_z)) ()) in
+      let sf = c20_tbl "bin suffix" c20_key_q (rd_list (rd_pair rd_q rd_str) ()) in
+      let md a b = md2 (a, b) in
+      let mz a b c = mz3 (a, (b, c)) in
+      let range = rd_opt (rd_pair rd_q rd_q) () in       (* min / max of the recorded mass_diff column *)
+      let sfx _size lo hi x =
+        (match range with
+         | Some (l, h) when c20_key_q l = c20_key_q lo && c20_key_q h = c20_key_q hi -> ()
+         | _ -> raise (Bad "c20: the model's min/max of mass_diff differ from the recorded column"));
+        sf x in
+      pr_result (fun (rows, t) ->
+          pr_list px_pr_psm rows;
+          pr_list px_pr_col t.o_cols;
+          pr_opt px_pr_roles t.o_roles)
+        (px_read_table num lg md mz rp sfx prefix files excl bin to_df))
